@@ -25,7 +25,7 @@ void xs_call(xs *s, superlu_options_t *opt)
     StatInit(&s->stat); s->stat_live = 1;
     int_t info = -999;
     int fresh = (opt->Fact == DOFACT || opt->Fact == SamePattern);
-    if (fresh && s->have_LU) xs_free_LU(s);
+    if (fresh && s->have_LU && s->lwork != -1) xs_free_LU(s);
     WK_PHASE(1);
     if (s->ilu)
         s->T->gsisx(opt, &s->S.A, s->perm_c, s->perm_r, s->etree, s->equed, s->Rbuf, s->Cbuf, &s->L, &s->U, s->work, (int_t)s->lwork,
@@ -35,12 +35,14 @@ void xs_call(xs *s, superlu_options_t *opt)
                     &s->B.M, &s->X.M, s->rpg, s->rcond, s->ferr, s->berr, &s->Glu, &s->mu, &s->stat, &info);
     WK_PHASE(2);
     s->info = (long)info;
+    if (opt->Fact != FACTORED && s->lwork != -1) s->lu_lwork = s->lwork;
+    if (opt->Fact != FACTORED && s->lwork == -1) return;          /* size query: nothing else changes */
     if (opt->Fact != FACTORED) s->have_LU = (info >= 0 && (info <= s->n || (info == s->n + 1 && opt->ConditionNumber == YES)) && s->lwork != -1);
 }
 void xs_free_LU(xs *s)
 {
     if (!s->have_LU) return;
-    if (s->lwork == 0) { Destroy_SuperNode_Matrix(&s->L); Destroy_CompCol_Matrix(&s->U); }
+    if (s->lu_lwork == 0) { Destroy_SuperNode_Matrix(&s->L); Destroy_CompCol_Matrix(&s->U); }
     else { Destroy_SuperMatrix_Store(&s->L); Destroy_SuperMatrix_Store(&s->U); }
     s->have_LU = 0;
 }
